@@ -43,6 +43,7 @@ theorem sstepE_markers_sub {P : Prog} {v v' : SV} {evs : List Tr} (hs : SStepE P
   | kill _ => exact .inl ⟨List.nil_sublist _, rfl⟩
   | forceQuit hc => exact .inl ⟨tailsub hc, rfl⟩
   | schedule hc => exact .inl ⟨tailsub hc, rfl⟩
+  | enqAct hc => exact .inl ⟨tailsub hc, rfl⟩
   | pushScr hc => exact .inl ⟨tailsub hc, rfl⟩
   | replace hc _ => exact .inl ⟨tailsub hc, rfl⟩
   | apprun hc => left; refine ⟨?_, rfl⟩; rw [hc]; exact List.Sublist.refl _
@@ -99,6 +100,7 @@ theorem basic_step {P : Prog} {v v' : SV} {evs : List Tr} (hb : Basic v) (hs : S
   | forceQuit _ =>
     exact ⟨hch, h1, h2, h3, List.Pairwise.nil, (by intro q hq; cases hq), fun _ => ⟨rfl, rfl⟩, (by intro a ha; cases ha)⟩
   | schedule _ => exact ⟨hch, h1, h2, h3, hb.lsorted, hb.llt, hb.fq, hb.active⟩
+  | enqAct _ => exact ⟨hch, h1, h2, h3, hb.lsorted, hb.llt, hb.fq, hb.active⟩
   | pushScr _ => exact ⟨hch, h1, h2, h3, hb.lsorted, hb.llt, hb.fq, hb.active⟩
   | replace _ _ => exact ⟨hch, h1, h2, h3, hb.lsorted, hb.llt, hb.fq, hb.active⟩
   | apprun _ => exact ⟨hch, h1, h2, h3, hb.lsorted, hb.llt, (by intro h; cases h), hb.active⟩
